@@ -5,6 +5,7 @@ import CfbVerif.Phys.DifatBack
 import CfbVerif.Phys.EntryBack
 import CfbVerif.Phys.OpenBack
 import CfbVerif.Phys.MiniFitReach
+import CfbVerif.Phys.Order
 import CfbVerif.Phys.LookupBack
 import CfbVerif.Phys.WalkBack
 /-!
